@@ -25,15 +25,15 @@ theorem lim_cand (r : Rule) (p : Inst) (y m d H M s s' : Nat) :
 second is one of the enumerated ones, not before the seed -/
 def MnlyGood (r : Rule) (p : Inst) (A0 : Int) (z : Inst) : Prop :=
   VT z ∧ z.ms = p.ms ∧ MnlyLim r z ∧ (∃ j : Nat, mabsOf z = A0 + ((j * r.inter : Nat) : Int)) ∧
-  (∃ i, (z.S, i) ∈ (makeEnum p r).S.zipIdx ∧ posPickP r.pos i (makeEnum p r).S.length = true) ∧ ltP z p = false
+  (∃ i, (z.S, i) ∈ (subEnum p r).S.zipIdx ∧ posPickP r.pos i (subEnum p r).S.length = true) ∧ ltP z p = false
 
 theorem mnlyLoop_sound (r : Rule) (p : Inst) (k : Nat) (hr : WfRule r) (hp : WfInst p) (A0 : Int) :
     ∀ (fuel y m d H M w cnt : Nat) (acc acc' : List Inst), 1901 ≤ y → 1 ≤ m → m ≤ 12 → 1 ≤ d →
       d ≤ getNdom y m → H < 24 → M < 60 →
       (y ≤ 2099 → w = wdayOf (days y m d) ∧ ∃ j : Nat, mcabs y m d H M = A0 + ((j * r.inter : Nat) : Int)) →
-      mnlyLoop (mkSubCtx r p k) (makeEnum p r).S.zipIdx fuel y m d H M w (getNdom y m) cnt acc = some acc' →
+      mnlyLoop (mkSubCtx r p k) (subEnum p r).S.zipIdx fuel y m d H M w (getNdom y m) cnt acc = some acc' →
       ∀ z ∈ acc', z ∈ acc ∨ MnlyGood r p A0 z := by
-  have hS := (makeEnum_S r p hr hp).2
+  have hS := (subEnum_S r p hr hp).2
   have hms := hp.ms
   intro fuel
   induction fuel with
@@ -53,10 +53,10 @@ theorem mnlyLoop_sound (r : Rule) (p : Inst) (k : Nat) (hr : WfRule r) (hp : WfI
     obtain ⟨hi1, hi2⟩ := mkSubCtx_inter r p k hr
     have hci := ctx_inter r p k hr
     obtain ⟨hX, hXm, _, _⟩ := cand_m p y m d H M 0 hy1 hy2 hm1 hm2 hd1 hd2 hH hM (by omega) hms
-    have hsem := mnlyBody_sem r p k hr (cand p y m d H M 0) hX hy1 hy2 w hw (makeEnum p r).S.zipIdx cnt acc
+    have hsem := mnlyBody_sem r p k hr (cand p y m d H M 0) hX hy1 hy2 w hw (subEnum p r).S.zipIdx cnt acc
     simp only [cand] at hsem
     -- the two shapes of the body
-    have hbody : ∃ cnt1 acc1 fin inc, mnlyBody (mkSubCtx r p k) (makeEnum p r).S.zipIdx y m d H M w (getNdom y m)
+    have hbody : ∃ cnt1 acc1 fin inc, mnlyBody (mkSubCtx r p k) (subEnum p r).S.zipIdx y m d H M w (getNdom y m)
         cnt acc = (cnt1, acc1, fin, inc) ∧ 1 ≤ inc ∧ inc < 2147483648 + 86400 ∧
         (∃ j2, inc = j2 * (mkSubCtx r p k).inter) ∧ ∀ z ∈ acc1, z ∈ acc ∨ MnlyGood r p A0 z := by
       rcases hsem with ⟨hlim, he⟩ | ⟨inc, he, b1, b2, b3, _⟩
@@ -78,7 +78,7 @@ theorem mnlyLoop_sound (r : Rule) (p : Inst) (k : Nat) (hr : WfRule r) (hp : WfI
     split at h
     · cases h; exact hacc1 z hz
     obtain ⟨y', m', d', H', M', w', hst, g1, g2, g3, g4, g5, g6, g7, g9, g10⟩ :=
-      mnlyStep_adv (mkSubCtx r p k) (makeEnum p r).S.zipIdx f y m d H M w cnt1 acc1 inc hy1 hy2 hm1 hm2 hd1 hd2
+      mnlyStep_adv (mkSubCtx r p k) (subEnum p r).S.zipIdx f y m d H M w cnt1 acc1 inc hy1 hy2 hm1 hm2 hd1 hd2
         hH hM b1 b2 hw
     rw [hst] at h
     have hnext : y' ≤ 2099 → w' = wdayOf (days y' m' d') ∧
@@ -101,15 +101,15 @@ theorem absOf_m (x : Inst) (hx : VT x) : absOf x = mabsOf x * 60 + x.S := by
 
 theorem mnlyLoop_complete (r : Rule) (p : Inst) (k : Nat) (hr : WfRule r) (hp : WfInst p)
     (x : Inst) (hx : VT x) (hxms : x.ms = p.ms) (hxl : MnlyLim r x) (hxu : ltP r.untl x = false)
-    (hxp : ltP x p = false) (hxy : x.y ≤ 2099) (hxs : x.S ∈ (makeEnum p r).S)
-    (hpk : ∀ i, (x.S, i) ∈ (makeEnum p r).S.zipIdx → posPickP r.pos i (makeEnum p r).S.length = true) :
+    (hxp : ltP x p = false) (hxy : x.y ≤ 2099) (hxs : x.S ∈ (subEnum p r).S)
+    (hpk : ∀ i, (x.S, i) ∈ (subEnum p r).S.zipIdx → posPickP r.pos i (subEnum p r).S.length = true) :
     ∀ (fuel y m d H M w cnt : Nat) (acc acc' : List Inst), 1901 ≤ y → y ≤ 2099 → 1 ≤ m → m ≤ 12 → 1 ≤ d →
       d ≤ getNdom y m → H < 24 → M < 60 → w = wdayOf (days y m d) →
       (∃ t : Nat, mabsOf x = mcabs y m d H M + ((t * r.inter : Nat) : Int)) →
       acc.length = cnt → cnt ≤ k → (∀ z ∈ acc, ltP z x = true) →
-      mnlyLoop (mkSubCtx r p k) (makeEnum p r).S.zipIdx fuel y m d H M w (getNdom y m) cnt acc = some acc' →
+      mnlyLoop (mkSubCtx r p k) (subEnum p r).S.zipIdx fuel y m d H M w (getNdom y m) cnt acc = some acc' →
       x ∈ acc' ∨ (acc'.length = k ∧ ∀ z ∈ acc', ltP z x = true) := by
-  have hS := makeEnum_S r p hr hp
+  have hS := subEnum_S r p hr hp
   have hms := hp.ms
   intro fuel
   induction fuel with
@@ -138,18 +138,18 @@ theorem mnlyLoop_complete (r : Rule) (p : Inst) (k : Nat) (hr : WfRule r) (hp : 
       omega
     obtain ⟨hi1, hi2⟩ := mkSubCtx_inter r p k hr
     have hci := ctx_inter r p k hr
-    have hsem := mnlyBody_sem r p k hr (cand p y m d H M 0) hX hy1 hy2 w hw (makeEnum p r).S.zipIdx cnt acc
+    have hsem := mnlyBody_sem r p k hr (cand p y m d H M 0) hX hy1 hy2 w hw (subEnum p r).S.zipIdx cnt acc
     simp only [cand] at hsem
     have hlt := abs_lt_2100 x hx hxy
     -- moving on to the next candidate with the instant still ahead
     have hgo : ∀ (cnt1 : Nat) (acc1 : List Inst) (inc : Nat), 1 ≤ inc → inc < 2147483648 + 86400 →
         (∃ t', t * r.inter = inc + t' * r.inter) → acc1.length = cnt1 → cnt1 ≤ k →
         (∀ z ∈ acc1, ltP z x = true) →
-        mnlyStep (mkSubCtx r p k) (makeEnum p r).S.zipIdx f y m d H ((M + inc) % u32) w (getNdom y m) cnt1 acc1 =
+        mnlyStep (mkSubCtx r p k) (subEnum p r).S.zipIdx f y m d H ((M + inc) % u32) w (getNdom y m) cnt1 acc1 =
           some acc' → x ∈ acc' ∨ (acc'.length = k ∧ ∀ z ∈ acc', ltP z x = true) := by
       intro cnt1 acc1 inc b1 b2 ⟨t', ht'⟩ hl1 hc1 hb1 h
       obtain ⟨y', m', d', H', M', w', hst, g1, g2, g3, g4, g5, g6, g7, g9, g10⟩ :=
-        mnlyStep_adv (mkSubCtx r p k) (makeEnum p r).S.zipIdx f y m d H M w cnt1 acc1 inc hy1 hy2 hm1 hm2 hd1 hd2
+        mnlyStep_adv (mkSubCtx r p k) (subEnum p r).S.zipIdx f y m d H M w cnt1 acc1 inc hy1 hy2 hm1 hm2 hd1 hd2
           hH hM b1 b2 hw
       rw [hst] at h
       have hxm : mabsOf x = mcabs y m d H M + inc + ((t' * r.inter : Nat) : Int) := by rw [ht, ht']; omega
@@ -160,7 +160,7 @@ theorem mnlyLoop_complete (r : Rule) (p : Inst) (k : Nat) (hr : WfRule r) (hp : 
       rw [he] at h
       simp only at h
       rw [mnlyEnum_eq] at h
-      have hcm : ∀ u ∈ (makeEnum p r).S.zipIdx, u.1 < 60 ∧ VT (cand p y m d H M u.1) ∧
+      have hcm : ∀ u ∈ (subEnum p r).S.zipIdx, u.1 < 60 ∧ VT (cand p y m d H M u.1) ∧
           absOf (cand p y m d H M u.1) = mcabs y m d H M * 60 + (u.1 : Nat) ∧
           mkInst y m d H M u.1 (mkSubCtx r p k).proto.ms = cand p y m d H M u.1 := by
         intro u hu
@@ -180,11 +180,11 @@ theorem mnlyLoop_complete (r : Rule) (p : Inst) (k : Nat) (hr : WfRule r) (hp : 
       have hcomp := gEnum_complete (mkSubCtx r p k).nti (mkSubCtx r p k).proto (mkSubCtx r p k).r.untl
         (fun u => mkInst y m d H M u.1 (mkSubCtx r p k).proto.ms)
         (fun u => posPickP (mkSubCtx r p k).r.pos u.2 (mkSubCtx r p k).e.S.length) (fun u => u.1) 60 sx x hxu hxp
-        (makeEnum p r).S.zipIdx cnt acc (zipIdx_asc _ hS.1) (fun u hu => (hcm u hu).1) ?_ ?_ ?_ hlen hcnt hbef
+        (subEnum p r).S.zipIdx cnt acc (zipIdx_asc _ hS.1) (fun u hu => (hcm u hu).1) ?_ ?_ ?_ hlen hcnt hbef
       · generalize gEnum (mkSubCtx r p k).nti (mkSubCtx r p k).proto (mkSubCtx r p k).r.untl
           (fun u => mkInst y m d H M u.1 (mkSubCtx r p k).proto.ms)
           (fun u => posPickP (mkSubCtx r p k).r.pos u.2 (mkSubCtx r p k).e.S.length)
-          (makeEnum p r).S.zipIdx cnt acc = g at h hcomp
+          (subEnum p r).S.zipIdx cnt acc = g at h hcomp
         obtain ⟨cnt1, acc1, fin⟩ := g
         simp only at h hcomp
         rcases hcomp with hin | ⟨hfin, hl1, hc1, hb1, hor⟩
@@ -192,7 +192,7 @@ theorem mnlyLoop_complete (r : Rule) (p : Inst) (k : Nat) (hr : WfRule r) (hp : 
           split at h
           · cases h; exact hin
           · obtain ⟨y', m', d', H', M', w', hst, _⟩ :=
-              mnlyStep_adv (mkSubCtx r p k) (makeEnum p r).S.zipIdx f y m d H M w cnt1 acc1 (mkSubCtx r p k).inter
+              mnlyStep_adv (mkSubCtx r p k) (subEnum p r).S.zipIdx f y m d H M w cnt1 acc1 (mkSubCtx r p k).inter
                 hy1 hy2 hm1 hm2 hd1 hd2 hH hM hi1 (by omega) hw
             rw [hst] at h
             exact mnlyLoop_mono _ _ _ _ _ _ _ _ _ _ _ _ _ h x hin
@@ -200,7 +200,7 @@ theorem mnlyLoop_complete (r : Rule) (p : Inst) (k : Nat) (hr : WfRule r) (hp : 
           simp only [Bool.false_eq_true, if_false] at h
           rcases hor with hfull | hbeyond
           · obtain ⟨y', m', d', H', M', w', hst, _⟩ :=
-              mnlyStep_adv (mkSubCtx r p k) (makeEnum p r).S.zipIdx f y m d H M w cnt1 acc1 (mkSubCtx r p k).inter
+              mnlyStep_adv (mkSubCtx r p k) (subEnum p r).S.zipIdx f y m d H M w cnt1 acc1 (mkSubCtx r p k).inter
                 hy1 hy2 hm1 hm2 hd1 hd2 hH hM hi1 (by omega) hw
             rw [hst] at h
             have := mnlyLoop_full _ _ _ _ _ _ _ _ _ _ _ _ _ (by rw [hk]; omega) h
